@@ -833,6 +833,66 @@ def rule_per_block(model):
     return r
 
 
+def rule_skip_condition(model):
+    r = RuleResult('C03.R7', 'a requested html quoting is left out only for '
+                   'tainted values (which the last stage of the pipeline '
+                   'quotes itself): the tests that skip the html_quote '
+                   'modifier / the html-quote format look at nothing but '
+                   'the taint mark')
+    fi = model.func('DT_Var', 'Var.render')
+    n = 0
+
+    def leaves(t):
+        if isinstance(t, ast.BoolOp):
+            out = []
+            for v in t.values:
+                out += leaves(v)
+            return out
+        if isinstance(t, ast.UnaryOp) and isinstance(t.op, ast.Not):
+            return leaves(t.operand)
+        return [t]
+    for x in own_nodes(fi.node):
+        if not isinstance(x, ast.If):
+            continue
+        lv = leaves(x.test)
+        sel = [t for t in lv if isinstance(t, ast.Compare) and any(
+            isinstance(c, ast.Constant) and c.value in ('html_quote',
+                                                        'html-quote')
+            for c in ast.walk(t))]
+        if not sel:
+            continue
+        # does this branch skip the quoting?  (body has no call)
+        skips = not any(isinstance(c, ast.Call) for s_ in x.body
+                        for c in ast.walk(s_))
+        if not skips:
+            continue
+        n += 1
+        others = [t for t in lv if t not in sel]
+        bad = [t for t in others if not (
+            isinstance(t, ast.Call) and isinstance(t.func, ast.Name) and
+            t.func.id == 'isinstance' and len(t.args) == 2 and
+            all('Tainted' in nm for nm in (
+                [norm(e) for e in t.args[1].elts]
+                if isinstance(t.args[1], ast.Tuple)
+                else [norm(t.args[1])])))]
+        r.instance(fi.where, x.test, 'taint mark only' if not bad
+                   else 'OTHER CONDITIONS')
+        if not others:
+            r.finding(fi.where, x.test, 'the requested html quoting is '
+                      'skipped unconditionally', node=x, ctx=fi)
+        for t in bad:
+            r.finding(fi.where, x.test, f'the requested html quoting is '
+                      f'also skipped when `{norm(t)}`: a value that is not '
+                      'tainted is then inserted without being quoted, '
+                      'although this form promises exactly the escaped '
+                      'value (and the other forms still quote it)',
+                      node=x, ctx=fi)
+    if n < 2:
+        raise AnalysisError(f'C03.R7: only {n} quoting skips found in '
+                            'Var.render')
+    return r
+
+
 def rule_frozen_options(model):
     """fmt=html-quote / html_quote rewritten into the options after the
     modifier list was derived: the full render path never quotes."""
@@ -841,7 +901,7 @@ def rule_frozen_options(model):
 
 
 RULES = [rule_one_escaper, rule_fast_path, rule_entity, rule_identity,
-         rule_per_block, rule_frozen_options]
+         rule_per_block, rule_frozen_options, rule_skip_condition]
 EXPLANATION = (
     'Resolved-callee query for the escaper on all quoting paths; set '
     'inclusion between the characters the fast path tests and the '
